@@ -201,6 +201,48 @@ def canon_run(r):
         return f"<uncanonical {type(e).__name__}>"
 
 
+TW_SPEC_SRC = L.HDR + '''from harness.props import c07 as _C07
+
+@tweezer
+def where(n: int):
+    return spec.get_static_trap(zone_id="A")
+
+@tweezer{tw_dec}
+def hopw(n: int):
+    z = where(n)
+    action.set_loc(spec.get_static_trap(zone_id="A"))
+    action.move(grid.shift(z, 1.0 * n, 2.0))
+
+@move{mv_dec}
+def hop(n: int):
+    d = schedule.device_fn(hopw, ilist.IList([0, 1, 2]), ilist.IList([0, 1]))
+    d(n)
+    return n
+'''
+
+
+def tweezer_spec_stream(ctx):
+    """a tweezer kernel compiled with its own spec, which invokes another tweezer routine that reads the spec, used by a move
+    kernel compiled with (and run under) another spec: everything the tweezer kernel looks up - its subroutine's lookups
+    included - comes from ITS spec"""
+    names = sorted(SLOTS)
+    if len(names) < 2:
+        return
+    for a, b in ((names[0], names[1]), (names[1], names[0])):
+        ref_mod = T.load_source(TW_SPEC_SRC.replace("{tw_dec}", "").replace("{mv_dec}", ""), "c07tr")
+        mod = T.load_source(TW_SPEC_SRC.replace("{tw_dec}", f"(arch_spec=_C07.SLOTS['{a}'])")
+                            .replace("{mv_dec}", f"(arch_spec=_C07.SLOTS['{b}'])"), "c07t")
+        for n in (1, 2):
+            want = canon_run(EV.run_with_events(ref_mod.hop, SLOTS[a], (n,)))
+            got = canon_run(EV.run_with_events(mod.hop, SLOTS[b], (n,), plain=True))
+            got2 = canon_run(EV.run_with_events(mod.hop, SLOTS[b], (n,)))
+            ctx.count("tweezer_kernel_with_own_spec_runs")
+            if got != want or got2 != want:
+                ctx.fail({"source": TW_SPEC_SRC[len(L.HDR):], "tweezer_spec": a, "move_spec": b, "args": [n]},
+                         f"a tweezer kernel compiled with {a} (calling a tweezer subroutine that reads the spec) inside a move kernel "
+                         f"compiled with {b}: plain run {got[:200]}, run under {b} {got2[:200]}, expected (everything from {a}) {want[:200]}")
+
+
 def run(ctx):
     global SLOTS
     rng = ctx.rng
@@ -292,5 +334,6 @@ def run(ctx):
                     spec_canon[k] = canon_spec(s)
         if mi == 0:
             ctx.sample({"module": module_source(helpers, roots, list(range(n_roots)), [f"s{i % 2}" for i in range(n_roots)])[len(L.HDR):][:2500]})
+    tweezer_spec_stream(ctx)
     if ctx.counts.get("histories", 0) < 5 and not ctx.disagreements:
         raise HarnessFault(f"generator degenerate: {ctx.counts}")
